@@ -34,12 +34,23 @@ def canonicalize_affine_exprs(tier="quick", seed=0):
     rnd = random.Random(seed)
     n = 1500 if tier == "quick" else 20000
     ndims = 3
-    box = list(itertools.product(range(-2, 5), repeat=ndims))
+    box = list(itertools.product(range(-2, 9), (0, 1, 5), (0,)))
     far = [tuple(rnd.randint(-1000, 1000) for _ in range(ndims)) for _ in range(30)]
     cases = 0
     viol = []
-    for _ in range(n):
-        e = _rand_expr(rnd, rnd.randint(1, 4), ndims)
+    exprs = [_rand_expr(rnd, rnd.randint(1, 4), ndims) for _ in range(n)]
+    # systematic part: all chains  d0 -> (op c) -> (op c) -> (op c)  with op in {+,*,floordiv,mod}
+    from xdsl.ir.affine import AffineBinaryOpExpr, AffineBinaryOpKind, AffineConstantExpr, AffineDimExpr
+
+    consts = (1, 2, 3, 4, 6) if tier == "quick" else (1, 2, 3, 4, 5, 6, 8)
+    steps = [(k, c) for k in (AffineBinaryOpKind.Add, AffineBinaryOpKind.Mul, AffineBinaryOpKind.FloorDiv, AffineBinaryOpKind.Mod) for c in consts]
+    for L in (1, 2, 3):
+        for chain in itertools.product(steps, repeat=L):
+            e = AffineDimExpr(0)
+            for k, c in chain:
+                e = AffineBinaryOpExpr(k, e, AffineConstantExpr(c))
+            exprs.append(AffineBinaryOpExpr(AffineBinaryOpKind.Add, e, AffineDimExpr(1)) if L == 3 and chain[0][1] == 2 else e)
+    for e in exprs:
         m = AffineMap(ndims, 0, (e,))
         try:
             c = canonicalize_map(m)
@@ -68,7 +79,7 @@ def canonicalize_affine_exprs(tier="quick", seed=0):
                 viol.append(dict(clause="canonicalize_map is idempotent", input=str(m), observed=f"{c} -> {cc}"))
         except (AssertionError, NotImplementedError, RecursionError):
             pass
-    return dict(domain=f"{n} random affine expressions over + * floordiv mod with constants, depth <= 4, 3 dims; box [-2,4]^3 + 30 random far points", cases=cases, violations=viol)
+    return dict(domain=f"{n} random affine expressions over + * floordiv mod with constants, depth <= 4, 3 dims; + all chains d0 (op c)^1..3; points [-2,8]x{0,1,5}x{0} + 30 random far points", cases=cases, violations=viol)
 
 
 def attr_print_parse(tier="quick", seed=0):
